@@ -250,20 +250,90 @@ class _Bag:
         raise Unsupported(f"bag .{name}")
 
 
+class tensor_signal_theory:
+    """context manager installing the structural group theory for one contract path"""
+
+    def __init__(self, c, env, sig):
+        from pyvc import tensor as tz
+
+        self.c, self.env, self.sig, self.tz = c, env, sig, tz
+        tz.LAYOUT_FREE[0] = True
+        self.some_pos, self.some_neg = c.bool("some_nonnegative_signal"), c.bool("some_negative_signal")
+        c.axiom(z3.Implies(sig.f >= 0, self.some_pos.z))
+        c.axiom(z3.Implies(sig.f < 0, self.some_neg.z))
+
+    def __enter__(self):
+        c, env, sig, tz = self.c, self.env, self.sig, self.tz
+        tn = c.interp.torch_ns._table
+        self.saved = saved = (tn.get("argwhere"), tn.get("cat"), T.__getitem__)
+        some_pos, some_neg = self.some_pos, self.some_neg
+
+        def argwhere(x):
+            if not (isinstance(x, T) and x.dtype == "bool" and x.tlen is None):
+                raise Unsupported("argwhere of a non-boolean / timed tensor")
+            pos = z3.is_true(z3.simplify(x.f == (sig.f >= 0)))
+            neg = z3.is_true(z3.simplify(x.f == (sig.f < 0))) or z3.is_true(z3.simplify(x.f == z3.Not(sig.f >= 0)))
+            if not (pos or neg):
+                raise Unsupported("argwhere of a condition other than the sign of the signal")
+            return _Group(x.f, some_pos.z if pos else some_neg.z)
+
+        def cat(ts, dim=0):
+            ts = list(ts)
+            if ts and all(isinstance(t, _Sel) for t in ts):
+                return _Bag(ts)
+            return saved[1](ts, dim)
+
+        def getitem(self_t, k):
+            if isinstance(k, _Group):
+                return _Sel(self_t, k)
+            return saved[2](self_t, k)
+
+        base_reduce = env.state.fields["batchreduce"]
+
+        def reduce_(it, x, dim=0, **kw):
+            if isinstance(x, _Bag):
+                tot = z3.RealVal(0)
+                for m in x.members:
+                    tot = tot + z3.If(m.g.cond, tz.coerce(m.x.f, "float"), z3.RealVal(0))
+                x = T(tot, "float", None, None, None)
+            # the stub's own reduction (identity on the arbitrary sample; the uninterpreted functional + log in C11 mode)
+            return it.call(base_reduce, [x, dim], kw)
+
+        tn["argwhere"], tn["cat"] = argwhere, cat
+        # `.view(-1, *repeat(1, dpost.ndim - 1))` only re-lays the per-sample scale out for broadcasting: in layout-free
+        # mode view() ignores its shape arguments, so the (symbolic-length) repeat may be empty
+        c.interp.namespaces["itertools"]._table["repeat"] = lambda v, times=None: []
+        T.__getitem__ = getitem
+        env.state.fields["batchreduce"] = Model(reduce_, "batchreduce(contribution of the arbitrary sample)")
+        return self
+
+    def __exit__(self, *exc):
+        tn = self.c.interp.torch_ns._table
+        T.__getitem__ = self.saved[2]
+        for k_, v in (("argwhere", self.saved[0]), ("cat", self.saved[1])):
+            if v is None:
+                tn.pop(k_, None)
+            else:
+                tn[k_] = v
+        return False
+
+    def part_emptiness(self, first_is_pos, second_is_pos):
+        """(pos part non-empty, neg part non-empty) when the first / second partial update goes to the potentiating part for
+        non-negative rewards iff first_is_pos / second_is_pos (z3 booleans)"""
+        sp, sn = self.some_pos.z, self.some_neg.z
+        pos_nonempty = z3.Or(z3.If(first_is_pos, sp, sn), z3.If(second_is_pos, sp, sn))
+        neg_nonempty = z3.Or(z3.If(first_is_pos, sn, sp), z3.If(second_is_pos, sn, sp))
+        return pos_nonempty, neg_nonempty
+
+
 def _mk_mstdp_tensor(cls, file, elig):
     for P in ("C09", "C08"):
         @contract(P, f"{cls}.forward[tensor_signal]", [(file, f"{cls}.forward")], tags=("trainer",), min_obligations=3)
         def fwd(c, cls=cls, P=P):
             """per-sample reward: each sample's term is scaled by |signal_b * scale| and routed by sign(lr * signal_b); a group
             with no sample contributes None, a non-empty group is never dropped"""
-            from pyvc import tensor as tz
-
-            tz.LAYOUT_FREE[0] = True
             lr_post, lr_pre = c.real("lr_post"), c.real("lr_pre")
             sig, scale = c.pw("signal_of_this_sample"), c.real("scale")
-            some_pos, some_neg = c.bool("some_nonnegative_signal"), c.bool("some_negative_signal")
-            c.axiom(z3.Implies(sig.f >= 0, some_pos.z))
-            c.axiom(z3.Implies(sig.f < 0, some_neg.z))
             if elig:
                 zp, zr = c.pw("elig_post"), c.pw("elig_pre")
                 c.require(zp.f >= 0, zr.f >= 0)
@@ -274,55 +344,9 @@ def _mk_mstdp_tensor(cls, file, elig):
                 mons, s = pair_monitors(c)
                 env = Env(c, mons, dict(lr_post=lr_post, lr_pre=lr_pre, delayed=False, tolerance=c.real("tol")))
                 dpost, dpre = b2r(s["spike_post"][0].f) * s["trace_pre"][0].f, b2r(s["spike_pre"][0].f) * s["trace_post"][0].f
-            tn = c.interp.torch_ns._table
-            saved = (tn.get("argwhere"), tn.get("cat"), T.__getitem__)
-
-            def argwhere(x):
-                if not (isinstance(x, T) and x.dtype == "bool" and x.tlen is None):
-                    raise Unsupported("argwhere of a non-boolean / timed tensor")
-                pos = z3.is_true(z3.simplify(x.f == (sig.f >= 0)))
-                neg = z3.is_true(z3.simplify(x.f == (sig.f < 0))) or z3.is_true(z3.simplify(x.f == z3.Not(sig.f >= 0)))
-                if not (pos or neg):
-                    raise Unsupported("argwhere of a condition other than the sign of the signal")
-                return _Group(x.f, some_pos.z if pos else some_neg.z)
-
-            def cat(ts, dim=0):
-                ts = list(ts)
-                if ts and all(isinstance(t, _Sel) for t in ts):
-                    return _Bag(ts)
-                return saved[1](ts, dim)
-
-            def getitem(self_t, k):
-                if isinstance(k, _Group):
-                    return _Sel(self_t, k)
-                return saved[2](self_t, k)
-
-            base_reduce = env.state.fields["batchreduce"]
-
-            def reduce_(it, x, dim=0, **kw):
-                if isinstance(x, _Bag):
-                    tot = z3.RealVal(0)
-                    for m in x.members:
-                        tot = tot + z3.If(m.g.cond, tz.coerce(m.x.f, "float"), z3.RealVal(0))
-                    x = T(tot, "float", None, None, None)
-                # the stub's own reduction (identity on the arbitrary sample; the uninterpreted functional + log in C11 mode)
-                return it.call(base_reduce, [x, dim], kw)
-
-            tn["argwhere"], tn["cat"] = argwhere, cat
-            # `.view(-1, *repeat(1, dpost.ndim - 1))` only re-lays the per-sample scale out for broadcasting: in layout-free
-            # mode view() ignores its shape arguments, so the (symbolic-length) repeat may be empty
-            c.interp.namespaces["itertools"]._table["repeat"] = lambda v, times=None: []
-            T.__getitem__ = getitem
-            env.state.fields["batchreduce"] = Model(reduce_, "batchreduce(contribution of the arbitrary sample)")
-            try:
+            th = tensor_signal_theory(c, env, sig)
+            with th:
                 out = c.outcome(c.function(file, f"{cls}.forward"), env.trainer, sig, scale)
-            finally:
-                T.__getitem__ = saved[2]
-                for k_, v in (("argwhere", saved[0]), ("cat", saved[1])):
-                    if v is None:
-                        tn.pop(k_, None)
-                    else:
-                        tn[k_] = v
             c.expect_return(out)
             pos, neg = env.captured("weight")
             mag = sig.f * scale.z
@@ -331,9 +355,7 @@ def _mk_mstdp_tensor(cls, file, elig):
             c.ensure("neg_nonnegative", val(neg) >= 0)
             c.ensure("this_samples_term_is_signal_scaled_and_routed_by_sign", val(pos) - val(neg) == mag * (z3.If(lr_post.z >= 0, z3.If(sig.f >= 0, dpost, -dpost), z3.If(sig.f >= 0, -dpost, dpost)) + z3.If(lr_pre.z >= 0, z3.If(sig.f >= 0, dpre, -dpre), z3.If(sig.f >= 0, -dpre, dpre))))
             # which groups feed which part (documented routing), hence when a part may be None
-            pp, pq = lr_post.z >= 0, lr_pre.z >= 0
-            pos_nonempty = z3.Or(z3.If(pp, some_pos.z, some_neg.z), z3.If(pq, some_pos.z, some_neg.z))
-            neg_nonempty = z3.Or(z3.If(pp, some_neg.z, some_pos.z), z3.If(pq, some_neg.z, some_pos.z))
+            pos_nonempty, neg_nonempty = th.part_emptiness(lr_post.z >= 0, lr_pre.z >= 0)
             c.ensure("potentiating_part_is_none_iff_its_groups_are_empty", z3.BoolVal(pos is None) == z3.Not(pos_nonempty))
             c.ensure("depressing_part_is_none_iff_its_groups_are_empty", z3.BoolVal(neg is None) == z3.Not(neg_nonempty))
             c.canary("canary_ignores_signal_sign", z3.And(val(pos) - val(neg) == mag * (sgn_mul(lr_post.z, dpost) + sgn_mul(lr_pre.z, dpre)), sig.f < 0, dpost > 0, lr_post.z > 0, mag > 0))
